@@ -433,7 +433,10 @@ class Process(metaclass=abc.ABCMeta):
         Returns:
             The combined schema.
         """
-        ports = copy.deepcopy(self.ports_schema())
+        # (every variable gets a dictionary of its own: ports schemas often
+        # use one dictionary for several variables, and an override for
+        # one of them must not reach the others)
+        ports = deep_copy_internal(copy.deepcopy(self.ports_schema()))
         deep_merge(ports, self.schema_override)
         deep_merge(ports, override)
         return ports
